@@ -29,7 +29,45 @@ type cmpSite struct {
 	full   bool            // the condition of a plain counting loop `for i := 0; i < E; i++` (the same as ranging over E)
 	tn, en map[string]bool // fields, functions and constants mentioned by the branch taken when the governing `if` holds / does not hold
 	negc   bool            // the comparison stands under a `!` in that condition
+	mult   int             // for a comparison read through a helper: at how many call sites of the helper it reads the same
 	rop    token.Token     // the operator under which the path is REFUSED (error / false / non-ACCEPT / continue / break), when the comparison governs such a branch; 0 otherwise
+}
+
+func isUnsignedExpr(info *types.Info, e ast.Expr) bool {
+	t := info.TypeOf(e)
+	if t == nil {
+		return false
+	}
+	b, ok := t.Underlying().(*types.Basic)
+	return ok && b.Info()&types.IsUnsigned != 0
+}
+
+// unsignedZeroTest: p = ±u + k compared with 0 under op, u one opaque unsigned value: when that is the test
+// u < 1 / u <= 0 (u == 0) or u > 0 / u >= 1 (u != 0), the equality operator, and k and the sign of u in p.
+func unsignedZeroTest(p Poly, op token.Token) (token.Token, int64, int64, bool) {
+	var atom string
+	n := 0
+	for a := range p {
+		if a != "" {
+			atom = a
+			n++
+		}
+	}
+	if n != 1 || (p[atom] != 1 && p[atom] != -1) {
+		return 0, 0, 0, false
+	}
+	sign, k := p[atom], p[""]
+	t := -k
+	if sign < 0 {
+		t, op = k, flipOp[op]
+	}
+	switch {
+	case op == token.LSS && t == 1, op == token.LEQ && t == 0:
+		return token.EQL, k, sign, true
+	case op == token.GTR && t == 0, op == token.GEQ && t == 1:
+		return token.NEQ, k, sign, true
+	}
+	return 0, 0, 0, false
 }
 
 var flipOp = map[token.Token]token.Token{token.LSS: token.GTR, token.LEQ: token.GEQ, token.GTR: token.LSS, token.GEQ: token.LEQ, token.EQL: token.EQL, token.NEQ: token.NEQ}
@@ -166,6 +204,24 @@ func cmpsIn(pk *packages.Package, fd *ast.FuncDecl, fn string, subst map[types.O
 			}
 		}
 		site := cmpSite{fn: fn, pos: be.Pos(), op: be.Op, p: polyAdd(l, r, -1), text: types.ExprString(be), lt: info.TypeOf(be.X), pa: polyAdd(la, ra, -1), pr: pr, pra: pra, uses: uses, full: countingLoop(info, fparents, be), rop: refusalOp(info, fd, fparents, be)}
+		// an unsigned value tested against the bottom of its range: u < 1, u <= 0 are u == 0; u > 0, u >= 1 are u != 0
+		if isUnsignedExpr(info, be.X) && isUnsignedExpr(info, be.Y) {
+			if nop, k, sign, ok := unsignedZeroTest(site.p, site.op); ok {
+				shift := func(q Poly) Poly {
+					q = polyAdd(q, polyConst(k), -1)
+					if sign < 0 {
+						q = polyAdd(Poly{}, q, -1)
+					}
+					return q
+				}
+				if site.rop != 0 {
+					if rop, _, _, ok := unsignedZeroTest(site.p, site.rop); ok {
+						site.rop = rop
+					}
+				}
+				site.op, site.p, site.pa, site.pr, site.pra = nop, shift(site.p), shift(site.pa), shift(site.pr), shift(site.pra)
+			}
+		}
 		site.tn, site.en, site.negc = branchNamesOf(info, fparents, be)
 		out = append(out, site)
 		return true
@@ -193,15 +249,24 @@ func collectCmps(p *Prog) map[string][]cmpSite {
 	}
 	direct, closure := helperClosure(p)
 	for fn, hs := range closure {
-		seen := map[string]bool{}
+		seen := map[string]int{}
 		add := func(s cmpSite, h string) {
 			k := fmt.Sprint(s.pos, "|", s.p.String(), "|", s.pr.String())
-			if seen[k] {
+			if at, dup := seen[k]; dup {
+				// the same comparison read at another call site of the helper: made once more
+				out[fn][at].mult++
+				for nm := range s.tn {
+					out[fn][at].tn[nm] = true
+				}
 				return
 			}
-			seen[k] = true
+			seen[k] = len(out[fn])
 			s.from = h
 			s.fn = fn
+			s.mult = 1
+			if s.tn == nil {
+				s.tn = map[string]bool{}
+			}
 			out[fn] = append(out[fn], s)
 		}
 		caller := cmpDecls[fn]
@@ -260,6 +325,26 @@ func collectCmps(p *Prog) map[string][]cmpSite {
 // substitutable: arguments that can stand for a parameter in a normal form (names, fields, constants, conversions and
 // arithmetic of those); calls with effects are left as the parameter's name.
 func substitutable(e ast.Expr) bool {
+	// a struct value written out with keyed fields that are themselves substitutable: its fields can be read
+	lit := ast.Unparen(e)
+	if u, isU := lit.(*ast.UnaryExpr); isU && u.Op == token.AND {
+		lit = ast.Unparen(u.X)
+	}
+	if cl, isLit := lit.(*ast.CompositeLit); isLit && len(cl.Elts) > 0 {
+		for _, el := range cl.Elts {
+			kv, isKV := el.(*ast.KeyValueExpr)
+			if !isKV {
+				return false
+			}
+			if _, isId := kv.Key.(*ast.Ident); !isId || !substitutable(kv.Value) {
+				return false
+			}
+			if _, nested := ast.Unparen(kv.Value).(*ast.CompositeLit); nested {
+				return false
+			}
+		}
+		return true
+	}
 	ok := true
 	ast.Inspect(e, func(n ast.Node) bool {
 		switch n.(type) {
@@ -962,7 +1047,7 @@ var cmpAbsHits []token.Pos
 
 func cmpAbsMatch(fn string, entries []cmpSpec, atoms []string, sites []cmpSite, claimed map[token.Pos]bool) (bool, string, token.Pos) {
 	cmpAbsHits = nil
-	used := map[int]bool{}
+	used := map[int]int{}
 	var first token.Pos
 	var gotNamed []string
 	viaHelper := false
@@ -977,7 +1062,7 @@ func cmpAbsMatch(fn string, entries []cmpSpec, atoms []string, sites []cmpSite, 
 		for ; n > 0; n-- {
 			hit := -1
 			for i := range sites {
-				if used[i] || claimed[sites[i].pos] {
+				if (used[i] >= 1 && used[i] >= sites[i].mult) || claimed[sites[i].pos] {
 					continue
 				}
 				// a renamed local (same shape by type, and the same once locals are read through), or the same
@@ -991,7 +1076,7 @@ func cmpAbsMatch(fn string, entries []cmpSpec, atoms []string, sites []cmpSite, 
 			if hit < 0 {
 				return false, "", token.NoPos
 			}
-			used[hit] = true
+			used[hit]++
 			cmpAbsHits = append(cmpAbsHits, sites[hit].pos)
 			if first == token.NoPos {
 				first = sites[hit].pos
@@ -1538,21 +1623,30 @@ func branchNamesOf(info *types.Info, parents map[ast.Node]ast.Node, be *ast.Bina
 					if n == nil {
 						continue
 					}
-					ast.Inspect(n, func(k ast.Node) bool {
-						id, ok := k.(*ast.Ident)
-						if !ok {
-							return true
-						}
-						switch v := info.ObjectOf(id).(type) {
-						case *types.Func, *types.Const:
-							m[id.Name] = true
-						case *types.Var:
-							if v.IsField() || (v.Pkg() != nil && v.Parent() == v.Pkg().Scope()) {
-								m[id.Name] = true
+					var visit func(n ast.Node, depth int)
+					visit = func(n ast.Node, depth int) {
+						ast.Inspect(n, func(k ast.Node) bool {
+							id, ok := k.(*ast.Ident)
+							if !ok {
+								return true
 							}
-						}
-						return true
-					})
+							switch v := info.ObjectOf(id).(type) {
+							case *types.Func, *types.Const:
+								m[id.Name] = true
+							case *types.Var:
+								if v.IsField() || (v.Pkg() != nil && v.Parent() == v.Pkg().Scope()) {
+									m[id.Name] = true
+								}
+								// a parameter of a helper read at its call site stands for the argument: the fields
+								// and functions the argument names are touched by this branch
+								if a, ok := polyArgs[v]; ok && depth < 3 {
+									visit(a, depth+1)
+								}
+							}
+							return true
+						})
+					}
+					visit(n, 0)
 				}
 				return m
 			}
